@@ -84,6 +84,10 @@ def c09(ctx):
 def c10(ctx):
     q = ctx.quick()
     ctx.model(MC, "MC_Sched_C10.cfg")
+    # the route changes after the first round (longer / shorter / unreachable, silent routers before the target)
+    ctx.model(MC, "MC_Sched_C10_growq.cfg" if q else "MC_Sched_C10_grow.cfg", workers=8)
+    ctx.model(MC, "MC_Sched_C10_strict.cfg", workers=4, expect_violation="EstablishedBeyondRouters",
+              label="MC_Sched_C10_strict (non-vacuity: reset only by a router strictly beyond the established distance)")
     ctx.sim("loop", 300 if q else 8000, LOOP, "MonLoop_C10.cfg", nontrivial=has_genuine)
     ctx.sim("sched", 100 if q else 2000, LOOP, "MonLoop_C10.cfg", seed_off=1, nontrivial=has_genuine)
     # probes that failed to send are probes too (the lowest ttl ever probed); route changes to a path of another length
